@@ -20,6 +20,10 @@ pub enum ReadPlan {
     ToEof { buf: usize, extra: u8 },
     /// calls `as_reader()` `calls` times without reading
     Touch { calls: u8 },
+    /// reads the whole body through another entry point of `std::io::Read`: 0 read_to_end,
+    /// 1 read_to_string, 2 io::copy into a sink, 3 bytes().count(), 4 read_exact(len) + one read,
+    /// 5 read_vectored loop
+    Std { how: u8 },
 }
 
 #[derive(Clone, Debug, PartialEq, Eq, Serialize, Deserialize)]
@@ -152,6 +156,10 @@ pub struct Delivered {
     pub respond_err: Option<String>,
     /// client bytes already on the client's side when the request was delivered
     pub client_len_at_delivery: usize,
+    /// the body was consumed to its end through an entry point that does not hand the bytes back
+    /// (read_to_string on non-UTF-8 data): nothing can be said about its content
+    #[serde(default)]
+    pub opaque_read: bool,
 }
 
 #[derive(Clone, Debug, Default)]
@@ -508,6 +516,9 @@ pub fn comp_bodies(case: &ConvCase, obs: &Observation) -> Comp {
         let Some((idx, rq)) = case.conv.reqs.iter().enumerate().find(|(_, r)| r.id == id) else { continue };
         let want = rq.body();
         let prog = case.prog(idx);
+        if d.opaque_read {
+            continue;
+        }
         // every read within its buffer
         let mut eof_seen = false;
         let mut total = 0usize;
@@ -541,8 +552,8 @@ pub fn comp_bodies(case: &ConvCase, obs: &Observation) -> Comp {
         if eof_seen && d.body.len() != want.len() {
             return err("body/early-eof", format!("request {} ({:?}): end-of-stream after {} of {} bytes", id, framing_name(&rq.framing), d.body.len(), want.len()));
         }
-        if let ReadPlan::ToEof { .. } = prog.read {
-            if !eof_seen {
+        if let ReadPlan::ToEof { .. } | ReadPlan::Std { .. } = prog.read {
+            if !eof_seen && !d.reads.iter().any(|r| r.res.is_err()) {
                 return err("body/no-eof", format!("request {}: reading to the end did not end", id));
             }
         }
